@@ -9,10 +9,10 @@ CONSTANTS
   MIds = {1, 2, 3}
   MVoters = {1, 2, 3}
   MLearners = {}
-  PreVoteOn = TRUE
-  CheckQuorumOn = TRUE
-  MaxTerm = 3
-  MaxLog = 2
+  PreVoteOn = FALSE
+  CheckQuorumOn = FALSE
+  MaxTerm = 1
+  MaxLog = 3
   MaxNet = 4
   MaxCrashes = 0
   MaxProposals = 1
@@ -26,15 +26,15 @@ CONSTANTS
   EagerReady = TRUE
   QuiescentTicks = TRUE
   MaxLeaderTicks = 1
-  TickNodes = {1, 2, 3}
-  MaxDrops = 2
+  TickNodes = {1}
+  MaxDrops = 1
   MaxTransfers = 0
   TransferTargets = {}
   MaxConf = 0
   ConfMenuIds = {}
   MaxReads = 0
   LazyApply = FALSE
-  AllowCompact = FALSE
+  AllowCompact = TRUE
   ProposeAnywhere = FALSE
 CONSTRAINT Bound
 INVARIANT Judge
